@@ -166,3 +166,16 @@ def build_xmini(f):
     ag.multi_tags.append(amt)
     ag.data_arrays.append(apos)
     return f
+
+
+def add_rank9(b):
+    """an array of rank 9 with nine descriptors (the next descriptor would get a two-digit number)"""
+    da = b.create_data_array("nine", "signal", data=np.zeros((1,) * 9))
+    for i in range(9):
+        if i % 3 == 0:
+            da.append_set_dimension(["l%d" % i])
+        elif i % 3 == 1:
+            da.append_sampled_dimension(float(i + 1), unit="ms")
+        else:
+            da.append_range_dimension([float(i)], unit="s")
+    return da
